@@ -31,13 +31,18 @@ RULE = ("a case = (width, rows, per-row mode-choice strings, EncodedByteAlign, B
         "model/implementation tie only. Non-trivial = distinct input whose rows are not all white")
 TRUSTED_BASE = [
     "the T.6 reference encoder: lean/PdfVerif/Spec/T6.lean and its Python twin in tools/harness/props/c19.py with "
-    "frozen code tables (c19_tables.py); both are compared on every generated case",
+    "frozen code tables (c19_tables.py); both are compared on every generated case; round 6: the frozen tables are "
+    "additionally characterised without reference to pdfminer (spec_tables_T4: keys, prefix-free, Kraft sum 1 - 2^-8, "
+    "no code under the EOL prefix, shared extended make-up codes; spec_encodeRun_shape), the same quantities being "
+    "recomputed from the Python twin",
     "tools/translate/gen_c19.py (ast -> Lean) for the MODE/WHITE/BLACK/UNCOMPRESSED tables; the tries built from the "
     "translated tables are compared with the tries BitParser.add built in the running interpreter",
     "tools/translate/gen_c19.py also regenerates Gen/CcittCode.lean (loop conditions, offsets, clamps, thresholds, "
     "bit masks, defaults, _parse_mode dispatch: expressions translated generically inside pinned statement "
     "skeletons) and Gen/CcittStream.lean (key / filter names and lookup orders of get_filters, _decode, "
-    "ccittfaxdecode); everything generated is used by the executable model and therefore tie-checked",
+    "ccittfaxdecode); round 6: also the holes of _parse_uncompressed / _do_uncompressed / reset, and hole-free pinned "
+    "bodies of BitParser._parse_bit, BitParser.add, the constructors and close (an edit is reported as "
+    "untranslatable); everything generated is used by the executable model and therefore tie-checked",
     "hand model lean/PdfVerif/Model/Ccitt.lean (control structure of BitParser/CCITTG4Parser/CCITTFaxDecoder/"
     "ccittfaxdecode) and Model/CcittStream.lean (get_any/get_filters/_decode CCITT branch, Python ==/truthiness of "
     "parameter objects): differential correspondence on encoded, damaged, crafted and random streams and on "
@@ -80,6 +85,21 @@ STATEMENT_STATUS: Dict[str, str] = {
                            "behaviour after 82c142f / f22e689)",
     "uncompressed_mode_cex": "proved counter-example: the uncompressed-mode extension (outside the property: not "
                              "pass/vertical/horizontal) never completes a row after `width` pixels",
+    "spec_tables_T4": "proved (round 6): the frozen specification tables by themselves - keys 0..63 + 64i <= 2560, "
+                      "prefix-free, Kraft sum 1 - 2^-8, no code under the EOL prefix, shared extended make-up codes, "
+                      "mode codes prefix-free with exactly the extension/EOFB space left",
+    "spec_codes_complete": "proved (round 6): every terminating / make-up length and every |d| <= 3 has a code word",
+    "spec_encodeRun_shape": "proved (round 6) for every run length: k x 2560 + at most one make-up + one terminating",
+    "eofb_ends_decoding": "proved (round 6): rows + EOFB + ANY bits decode to the rows (EndOfBlock / Rows never read)",
+    "image_rt_trailing": "proved (round 6): bytes appended to an encoding with EOFB are ignored",
+    "extension_codes_rejected": "proved (round 6): after any rows an extension code x1..x7 raises InvalidData",
+    "unassigned_code_rejected": "proved (round 6): in every parser state, bits leading to an unassigned slot of the "
+                                "current code table raise InvalidData",
+    "eol_rejected": "proved (round 6): a single EOL code after any rows (EndOfLine-style data) raises InvalidData",
+    "blackIs1_only_polarity": "proved (round 6) for EVERY byte string and parameter combination: BlackIs1 changes only "
+                              "the polarity - same error, or one list of rows packed with either polarity",
+    "k_not_group4_rejected": "proved (round 6): K = 0, K > 0, K < -1, absent or non-numeric K -> PDFValueError "
+                             "whatever the data and the other entries",
 }
 CLASSIFIERS: Dict[str, Any] = {}
 
@@ -560,6 +580,33 @@ class Batch:
         self.expect.append(("dec", {"K": K, "Columns": cols, "align": align, "blackis1": rev,
                                     "data": data.hex()}, got))
 
+    def add_expect(self, data: bytes, K, cols, align, rev, want: str, what: str, tag: str, route: str = "func",
+                   extra: Optional[Dict[str, Any]] = None) -> None:
+        """Round 6: a stream whose result a theorem predicts (`eofb_ends_decoding`, `extension_codes_rejected`,
+        `k_not_group4_rejected`): the implementation must give `want` (property check with replay) and the
+        model must agree with the implementation (tie)."""
+        ctx = self.ctx
+        got = impl_decode(data, K, cols, align, rev, route)
+        ctx.case(("r6", tag, data, K, cols, align, rev, route), True, branch="gen:" + tag)
+        ctx.branch("r6:%s:%s" % (tag, got[:3] if got.startswith("ok") else got))
+        ctx.branch("route:" + route)
+        inp = {"r6": tag, "data": data.hex(), "K": K, "Columns": cols, "align": align, "blackis1": rev,
+               "route": route, "expect": want, "what": what}
+        inp.update(extra or {})
+        if got != want:
+            if self.reported < 5:
+                self.reported += 1
+                ctx.fail(C.Failure(what, inp, want, got,
+                                   {"kind": "r6", "gen": tag, "route": route, "width": cols, "align": bool(align),
+                                    "blackis1": bool(rev), "exception": got[4:] if got.startswith("EXC:") else ""}))
+            else:
+                ctx.branch("failure-not-reported")
+        if cols is None or isinstance(cols, int):
+            self.lines.append("dec %s %s %s %s %s" % ("n" if K is None else K, "n" if cols is None else cols,
+                                                      "n" if align is None else int(bool(align)),
+                                                      "n" if rev is None else int(bool(rev)), C.hx(data)))
+            self.expect.append(("dec", inp, got))
+
     def add_raw(self, line: str, inp: Any, expected: str) -> None:
         self.lines.append(line)
         self.expect.append((line.split(" ")[0], inp, expected))
@@ -852,7 +899,7 @@ def run_stream_params(ctx: C.Ctx, b: Batch) -> None:
     def val(kind):
         return rng.choice({"K": [-1, -1, -1, 0, 1, -2, None, True, LIT("x"), [], {}],
                            "Columns": [5, 5, 5, 4, 8, 1728, 0, -3],
-                           "flag": [True, False, 0, 1, 2, None]}[kind])
+                           "flag": [True, False, 0, 1, 2, None, True, False, LIT("x"), [], [0], {}, {"a": 1}]}[kind])
 
     for i in range(ctx.n(400, 6000)):
         p: Dict[str, Any] = {}
@@ -897,6 +944,175 @@ def run_stream_params(ctx: C.Ctx, b: Batch) -> None:
         b.add_raw("sdec %s %s" % (C.hx(raw), obj_tokens(attrs)), {"attrs": obj_tokens(attrs), "raw": raw.hex()}, got)
 
 
+def impl_ext_code(n: int) -> Optional[str]:
+    """Code word of the symbol 'x<n>' in the implementation's MODE trie."""
+    from pdfminer.ccitt import CCITTG4Parser as P
+
+    def walk(t, path):
+        if isinstance(t, list):
+            for i in (0, 1):
+                r = walk(t[i], path + str(i))
+                if r is not None:
+                    return r
+            return None
+        return path if t == "x%d" % n else None
+    return walk(P.MODE, "")
+
+
+def run_round6(ctx: C.Ctx, b: Batch) -> None:
+    """Round 6: specification tables (Lean vs Python twin), EOFB + trailing data, extension codes, K values."""
+    rng = ctx.rng
+    # --- the specification's tables and run-length codes: Lean definitions vs the Python twin
+    wk = sum(2 ** (13 - len(c)) for c in T4_WHITE.values())
+    bk = sum(2 ** (13 - len(c)) for c in T4_BLACK.values())
+    modes = [T6_MODE[k] for k in ("p", "h", 0, 1, -1, 2, -2, 3, -3)]
+    mk = sum(2 ** (7 - len(c)) for c in modes)
+    keys = sorted(T4_WHITE)
+    ctx.case(("spectab",), True, branch="gen:spec-tables")
+    b.add_raw("spectab", {"spec": "tables"},
+              "%d %d %d %d %d keys-ok prefix-free %s" % (wk, bk, mk, len(keys), sum(keys), " ".join(modes)))
+    lens = sorted(set(RUN_LENGTHS + list(range(0, 70)) + [64 * i for i in range(1, 42)] +
+                      [2560 * k + d for k in range(1, 5) for d in (-1, 0, 1, 63, 64, 65, 127, 128)] +
+                      [rng.randrange(0, 20000) for _ in range(ctx.n(200, 2000))]))
+    for n in lens:
+        for color in (0, 1):
+            code = code_run(n, color)
+            # independent re-reading of the shape: greedy prefix decoding with the frozen table sums to n,
+            # 2560s first, then at most one make-up, then exactly one terminating code
+            inv = {c: v for v, c in RUN_TABLE[color].items()}
+            vals, cur = [], ""
+            for ch in code:
+                cur += ch
+                if cur in inv:
+                    vals.append(inv[cur])
+                    cur = ""
+            k = 0
+            while k < len(vals) - 2 and vals[k] == 2560:
+                k += 1
+            tail = vals[k:]
+            ok = (cur == "" and sum(vals) == n and vals and vals[-1] < 64 and len(tail) <= 2 and
+                  all(v >= 64 and v % 64 == 0 for v in tail[:-1]))
+            ctx.case(("run", color, n), True, branch="run-shape:%s" % ("k>0" if k else ("makeup" if len(tail) == 2 else "term")))
+            if not ok:
+                ctx.disagree("spec.encodeRun shape (Python twin)", {"n": n, "color": color}, "k*2560+m+t", repr(vals))
+            b.add_raw("run %d %d" % (color, n), {"run": n, "color": color}, code)
+    # --- extension codes of the implementation's MODE table vs the regenerated table
+    ext = {}
+    for n in range(1, 9):
+        ext[n] = impl_ext_code(n)
+        ctx.case(("ext", n, ext[n]), True, branch="ext:" + ("present" if ext[n] else "absent"))
+        b.add_raw("ext %d" % n, {"ext": n}, ext[n] or "-")
+    # --- images followed by EOFB + anything / by an extension code; K values
+    widths = [1, 2, 3, 5, 7, 8, 9, 16, 17, 33, 64, 65, 200, 1728, 2561, 2700]
+    for i in range(ctx.n(900, 9000)):
+        w = rng.choice(widths[:10]) if rng.random() < 0.85 else rng.choice(widths)
+        rows = []
+        for _ in range(rng.randint(0, 3)):
+            rows.append(gen_row(rng, w, rows[-1] if rows else None))
+        chs = gen_choices(rng, rows, w)
+        align, rev = rng.random() < 0.5, rng.random() < 0.5
+        route = "func" if rng.random() < 0.8 else rng.choice(["stream", "stream-abbrev"])
+        packed = "ok:" + C.hx(pack(rows, w, rev))
+        _, used = encode_image(rows, w, chs, align, False)
+        # bits of the rows alone (encode_image pads the end; redo without the final padding)
+        bits, ref = "", [1] * w
+        for r, ch in zip(rows, list(chs) + [""] * len(rows)):
+            code, _u = encode_line(ref, r, w, ch)
+            if align and len(code) % 8:
+                code += "0" * (8 - len(code) % 8)
+            bits += code
+            ref = r
+        extra = {"w": w, "rows_str": rows_str(rows), "choices": ",".join(chs)}
+        k = i % 6
+        if k == 4:      # one EOL code that is not followed by a second one (eol_rejected)
+            dev = rng.randrange(12)
+            devbits = "0" * dev + "1" if dev < 11 else "0" * 12
+            tail = "".join(rng.choice("01") for _ in range(rng.randint(0, 24)))
+            b.add_expect(bits_to_bytes(bits + "000000000001" + devbits + tail), -1, w, align, rev, "EXC:InvalidData",
+                         "a lone EOL code after valid rows was not rejected with InvalidData", "eol", "func",
+                         dict(extra, deviation=dev))
+        elif k == 5:    # H followed by the unassigned white code 00000000 (unassigned_code_rejected)
+            tail = "".join(rng.choice("01") for _ in range(rng.randint(0, 24)))
+            b.add_expect(bits_to_bytes(bits + T6_MODE["h"] + "00000000" + tail), -1, w, align, rev, "EXC:InvalidData",
+                         "an unassigned run-length code was not rejected with InvalidData", "unassigned-run", "func",
+                         extra)
+        elif k == 0:    # complete encoding with EOFB + trailing bytes (image_rt_trailing)
+            enc, _ = encode_image(rows, w, chs, align, True)
+            trail = bytes(rng.getrandbits(8) for _ in range(rng.randint(1, 6)))
+            if rng.random() < 0.3:      # a second image after the first one's EOFB
+                trail = encode_image([gen_row(rng, w, None)], w, [""], align, True)[0]
+            b.add_expect(enc + trail, -1, w, align, rev, packed,
+                         "data after EOFB changed the result (decoding must stop at EOFB)", "eofb-trailing", route, extra)
+        elif k == 1:    # EOFB not followed by fill: arbitrary bits right after it (eofb_ends_decoding)
+            tail = "".join(rng.choice("01") for _ in range(rng.randint(0, 40)))
+            b.add_expect(bits_to_bytes(bits + T6_MODE["e"] + tail), -1, w, align, rev, packed,
+                         "bits after EOFB changed the result (decoding must stop at EOFB)", "eofb-bits", route, extra)
+        elif k == 2:    # an extension code after the rows (extension_codes_rejected)
+            n = rng.randint(1, 7)
+            if ext.get(n):
+                tail = "".join(rng.choice("01") for _ in range(rng.randint(0, 24)))
+                b.add_expect(bits_to_bytes(bits + ext[n] + tail), -1, w, align, rev, "EXC:InvalidData",
+                             "extension code x%d after valid rows was not rejected with InvalidData" % n,
+                             "ext-code", "func", dict(extra, ext=n))
+        else:           # K other than -1, any Columns (k_not_group4_rejected)
+            K = rng.choice([0, 1, 2, 4, 7, -2, -3, -100, None])
+            cols = rng.choice([w, w, None, 0, -1, 1])
+            data = bits_to_bytes(bits + T6_MODE["e"]) if rng.random() < 0.7 else \
+                bytes(rng.getrandbits(8) for _ in range(rng.randint(0, 8)))
+            b.add_expect(data, K, cols, align, rev, "EXC:PDFValueError",
+                         "K = %r (not Group 4) was not rejected with PDFValueError" % (K,), "k-not-g4", route, extra)
+
+
+def polarity_law(got0: str, got1: str, w: int) -> bool:
+    """`blackIs1_only_polarity` read on the implementation's two results."""
+    if got0.startswith("EXC:") or got1.startswith("EXC:"):
+        return got0 == got1
+    a = bytes.fromhex(got0[3:].replace("-", ""))
+    c = bytes.fromhex(got1[3:].replace("-", ""))
+    rb = (w + 7) // 8
+    if len(a) != len(c) or len(a) % rb:
+        return False
+    mask = bits_to_bytes("1" * w)
+    return all(x ^ y == mask[i % rb] for i, (x, y) in enumerate(zip(a, c)))
+
+
+def run_polarity(ctx: C.Ctx, b: Batch) -> None:
+    """Round 6: BlackIs1 on arbitrary (mostly damaged) data: only the polarity may change."""
+    rng = ctx.rng
+    reported = 0
+    for i in range(ctx.n(500, 6000)):
+        w = rng.choice([1, 2, 3, 5, 7, 8, 9, 16, 17, 40])
+        k = rng.random()
+        if k < 0.4:
+            data, tag = gen_token_stream(rng), "pol-token-stream"
+        elif k < 0.6:
+            data, tag = bytes(rng.getrandbits(8) for _ in range(rng.randint(0, 10))), "pol-random-bytes"
+        else:
+            rows = []
+            for _ in range(rng.randint(1, 3)):
+                rows.append(gen_row(rng, w, rows[-1] if rows else None))
+            data = bytearray(encode_image(rows, w, gen_choices(rng, rows, w), rng.random() < 0.5, rng.random() < 0.7)[0])
+            for _ in range(rng.randint(0, 2)):
+                j = rng.randrange(len(data) * 8)
+                data[j // 8] ^= 128 >> (j % 8)
+            data, tag = bytes(data), "pol-bit-flips"
+        align = rng.random() < 0.5
+        got0 = impl_decode(data, -1, w, align, False)
+        got1 = impl_decode(data, -1, w, align, True)
+        ok = polarity_law(got0, got1, w)
+        ctx.case(("pol", data, w, align), True, branch="gen:" + tag)
+        ctx.branch("polarity:" + ("both-error" if got0.startswith("EXC") else "rows" if len(got0) > 4 else "no-rows"))
+        if not ok and reported < 3:
+            reported += 1
+            ctx.fail(C.Failure("BlackIs1 changed more than the polarity of the output",
+                               {"pol": True, "data": data.hex(), "K": -1, "Columns": w, "align": align},
+                               "complement of " + got0, got1,
+                               {"kind": "polarity", "width": w, "align": align,
+                                "exception": got1[4:] if got1.startswith("EXC:") else ""}))
+        for rv in (False, True):
+            b.add_dec(data, -1, w, align, rv, tag=tag)
+
+
 def run_corpus(ctx: C.Ctx, b: Batch) -> None:
     for path in sorted(glob.glob(os.path.join(C.VERIF, "corpus", "C19", "*.json"))):
         with open(path) as fp:
@@ -906,7 +1122,21 @@ def run_corpus(ctx: C.Ctx, b: Batch) -> None:
 
 def _replay(ctx: C.Ctx, b: Batch, doc, tag: str) -> None:
     inp = doc.get("input", {})
-    if "rows" in inp:
+    if "pol" in inp:
+        data, w, al = bytes.fromhex(inp["data"]), inp["Columns"], inp.get("align", False)
+        got0, got1 = impl_decode(data, -1, w, al, False), impl_decode(data, -1, w, al, True)
+        ctx.case(("pol", data, w, al), True, branch="gen:" + tag)
+        if not polarity_law(got0, got1, w):
+            ctx.fail(C.Failure("BlackIs1 changed more than the polarity of the output", inp, "complement of " + got0,
+                               got1, {"kind": "polarity", "width": w, "align": al}))
+        for rv in (False, True):
+            b.add_dec(data, -1, w, al, rv, tag=tag)
+    elif "r6" in inp:
+        extra = {k: v for k, v in inp.items() if k in ("w", "rows_str", "choices", "ext")}
+        b.add_expect(bytes.fromhex(inp["data"]), inp.get("K", -1), inp.get("Columns"), inp.get("align", False),
+                     inp.get("blackis1", False), inp["expect"], inp.get("what", "round-6 expectation"),
+                     inp["r6"], inp.get("route", "func"), extra)
+    elif "rows" in inp:
         c = Case.from_json(inp)
         c.tag = tag
         b.add_rt(c)
@@ -935,5 +1165,7 @@ def run(ctx: C.Ctx) -> None:
     run_random(ctx, b)
     run_damaged(ctx, b)
     run_stream_params(ctx, b)
+    run_round6(ctx, b)
+    run_polarity(ctx, b)
     run_exhaustive(ctx, b)
     b.flush()
